@@ -42,12 +42,15 @@ def ode_taylor(ctx, derivs, x0, y0, tol_prec, n):
     # Estimate radius for which we can get full accuracy.
     # XXX: do this right for zeros
     radius = ctx.one
+    toln = ctx.nthroot(tol, n)
     for ts in ser:
-        # use the last two coefficients: the last one vanishes identically
-        # for solutions that are even or odd about the expansion point
-        for k in (n, n-1):
-            if k > 0 and ts[k]:
-                radius = min(radius, ctx.nthroot(tol/abs(ts[k]), k))
+        # root test on the last few coefficients, not only the last one:
+        # for an even or odd solution every other coefficient vanishes,
+        # and for series in powers of x^m (y' = 7x^6 y, y' = x sin y) only
+        # every m-th one is non-zero
+        for k in range(max(1, n-8), n+1):
+            if ts[k]:
+                radius = min(radius, toln * ctx.nthroot(1/abs(ts[k]), k))
     radius /= 2  # XXX
     return ser, x0+radius
 
